@@ -103,6 +103,9 @@ fn run_case(w: &mut World, input: &str) -> (String, Outcome) {
     if chs.iter().any(|c| c.parents.contains(&None)) {
         o.tags.push("unloadable-parent".into());
     }
+    if chs.iter().any(|c| c.parents.iter().flatten().any(|p| c.parents.iter().flatten().any(|q| q != p && closure(&chs, &[Some(*q)]).contains(p)))) {
+        o.tags.push("redundant-parent".into());
+    }
     if (1..chs.len()).any(|i| !accepted(&chs, i)) {
         o.tags.push("has-rejected-change".into());
     }
